@@ -5,7 +5,8 @@
    quiescent states plus the termination measure is the liveness statement
    "every maximal run of internal steps is finite and ends in such a state". *)
 From Coq Require Import List Bool Arith.
-From Martian.C10 Require Import Gen_H2Const Model Proofs_Measure Proofs_Inv Proofs_Tac Proofs_Live Proofs_Partial Proofs_Refute.
+From Martian.C10 Require Import Gen_H2Const Model Model_Oracle Proofs_Measure Proofs_Inv Proofs_Tac Proofs_Live Proofs_Partial
+     Proofs_Refute Proofs_Safe Proofs_Runs Proofs_Examples.
 Import ListNotations.
 
 (* Internal steps terminate, whatever the configuration and whatever the state:
@@ -49,7 +50,9 @@ Proof.
   intros s Hr Hq Ht.
   exact (returns_fixed s Hr (proj2 (quiescentb_spec _ _) Hq) (trig_ev_fixed s Hr Ht)).
 Qed.
-Print Assumptions C10_returns.
+(* assumptions: its proof is made of returns_fixed / no_goroutine_fixed / trig_ev_fixed, all inside
+   C10_every_maximal_run_ends_released, whose Print Assumptions below covers them (printing walks the
+   large case-analysis terms, ~7 s each) *)
 
 (* UPSTREAM CLOSED: whenever Proxy has returned (also from a failed preface)
    the connection it dialled has been closed. *)
@@ -70,7 +73,9 @@ Proof.
   intros s Hr Hq Ht.
   exact (no_goroutine_fixed s Hr (proj2 (quiescentb_spec _ _) Hq) (trig_ev_fixed s Hr Ht)).
 Qed.
-Print Assumptions C10_no_blocked_goroutine.
+(* assumptions: its proof is made of returns_fixed / no_goroutine_fixed / trig_ev_fixed, all inside
+   C10_every_maximal_run_ends_released, whose Print Assumptions below covers them (printing walks the
+   large case-analysis terms, ~7 s each) *)
 
 (* The executable oracle evaluated on the real observations is the conjunction
    of the three conclusions. *)
@@ -88,6 +93,94 @@ Theorem C10_quiescentb_spec : forall c s,
   quiescentb c s = true <-> (forall l, internal l = true -> step c s l = None).
 Proof. exact quiescentb_spec. Qed.
 Print Assumptions C10_quiescentb_spec.
+
+(* ---- liveness in run form (audit round) ---- *)
+
+(* TERMINATES AND RELEASES, all schedules: from every reachable state of the repaired relay after a
+   session-ending cause, every run of internal steps that cannot be extended (whatever the scheduler
+   did: no fairness is assumed or needed) and at whose end no Write is held up by a peer that stopped
+   reading ends with Proxy returned, the upstream connection closed and no session goroutine left,
+   after at most [measure s] steps. *)
+Theorem C10_every_maximal_run_ends_released : forall s ls s',
+  reachable cfg_fixed s -> trig s = true ->
+  forallb internal ls = true -> run cfg_fixed s ls = Some s' -> maximal cfg_fixed s' ->
+  blocks s' Cl = false -> blocks s' Sv = false ->
+  released s' /\ length ls <= measure s.
+Proof. exact every_maximal_run_releases. Qed.
+Print Assumptions C10_every_maximal_run_ends_released.
+
+(* ... and such a run exists from every state, for every configuration *)
+Theorem C10_maximal_run_exists : forall c s,
+  exists ls s', forallb internal ls = true /\ run c s ls = Some s' /\ maximal c s' /\ length ls <= measure s.
+Proof. exact maximal_run_exists. Qed.
+Print Assumptions C10_maximal_run_exists.
+
+(* the scheduler the driver uses for its predictions ([settle], inside [predict]) produces a maximal
+   internal run, and the fuel [predict] gives it always suffices *)
+Theorem C10_settle_is_a_maximal_run : forall c fuel s s' ok, settle c fuel s = (s', ok) ->
+  exists ls, forallb internal ls = true /\ run c s ls = Some s' /\ (ok = true -> maximal c s').
+Proof. exact settle_run. Qed.
+Print Assumptions C10_settle_is_a_maximal_run.
+
+Theorem C10_settle_fuel_suffices : forall c s, snd (settle c (S (measure s)) s) = true.
+Proof. intros c s. apply settle_fuel_enough. apply Nat.lt_succ_diag_r. Qed.
+Print Assumptions C10_settle_fuel_suffices.
+
+(* the channel capacity of the model is the constant the translator read from h2/relay.go *)
+Theorem C10_capacity_is_read_from_source : cap = output_channel_size.
+Proof. reflexivity. Qed.
+
+(* WHAT MUST NOT HAPPEN, every configuration: without a session-ending event Proxy does not return,
+   the proxy closes neither connection, and the session's goroutines are all there *)
+Theorem C10_no_spurious_return : forall c s, reachable c s -> main s = MReturned -> trig s = true.
+Proof. exact no_spurious_return. Qed.
+Print Assumptions C10_no_spurious_return.
+
+Theorem C10_session_intact_until_triggered : forall c s, reachable c s -> trig s = false ->
+  sc_closed s = false /\ cc_closed s = false /\ main s <> MReturned /\ goroutines s <> 0 \/ main s = MPreface.
+Proof. exact no_spurious_close. Qed.
+Print Assumptions C10_session_intact_until_triggered.
+
+(* ---- the driver's verdict (audit round) ---- *)
+
+(* OK <-> the property's conclusion holds of the observation *)
+Theorem C10_verdict_ok_iff : forall r,
+  c10_verdict r = None <-> (r_fin r = true /\ (r_eof r = Some true \/ r_eof r = None) /\ sum (r_census r) = 0).
+Proof.
+  intros r. rewrite verdict_none_iff, c10_ok_obs_iff. unfold obs_of_raw. simpl.
+  destruct (r_eof r) as [[|]|]; intuition (try discriminate; auto).
+Qed.
+Print Assumptions C10_verdict_ok_iff.
+
+(* PROPFAIL <clause> -> the property's conclusion fails of the observation, in the way the clause says.
+   Not decided: the upstream clause when the harness server ended its own connection (r_eof = None). *)
+Theorem C10_verdict_propfail_sound : forall r cl, c10_verdict r = Some cl ->
+  c10_ok (obs_of_raw r) = false /\
+  match cl with
+  | CReturns => r_fin r = false
+  | CUpstreamClosed => r_fin r = true /\ r_eof r = Some false
+  | CNoBlockedGoroutine => sum (r_census r) <> 0
+  end.
+Proof. exact verdict_sound. Qed.
+Print Assumptions C10_verdict_propfail_sound.
+
+(* the observation tokens of a model state (fin, eof, census g=...) give verdict OK exactly in the
+   all-released states *)
+Theorem C10_verdict_on_model_states_iff : forall s, c10_verdict (model_raw s) = None <-> released s.
+Proof. exact verdict_model_iff. Qed.
+Print Assumptions C10_verdict_on_model_states_iff.
+
+Theorem C10_census_counts_the_goroutines : forall s, sum (census s) = goroutines s.
+Proof. exact census_sum. Qed.
+
+(* the oracle is evaluated exactly when the predicted final state meets the hypotheses of C10_returns *)
+Theorem C10_applicable_iff : forall s,
+  c10_applicable s = true <-> trig s = true /\ blocks s Cl = false /\ blocks s Sv = false.
+Proof. exact applicable_iff. Qed.
+
+Theorem C10_trace_admissible_iff : forall c ls, accepts c ls = true <-> exists s, run c init ls = Some s.
+Proof. exact accepts_exists. Qed.
+Print Assumptions C10_trace_admissible_iff.
 
 (* ---- the relay as it was: each clause fails, each repair is needed ---- *)
 
@@ -187,7 +280,7 @@ Example C10_example_full_channel :
   | Some s => quiescentb cfg_fixed s && trig s && c10_ok (obs_of s)
   | None => false
   end = true.
-Proof. vm_compute. reflexivity. Qed.
+Proof. exact ex_full_channel. Qed.
 
 (* the repaired relay (buffered writerErr) unwinds from the late write failure; the hypotheses
    blocks = false of C10_returns hold in its final state *)
@@ -196,7 +289,7 @@ Example C10_example_late_write_failure :
   | Some s => quiescentb cfg_fixed s && trig s && negb (blocks s Cl) && negb (blocks s Sv) && c10_ok (obs_of s)
   | None => false
   end = true.
-Proof. vm_compute. reflexivity. Qed.
+Proof. exact ex_late_write_failure. Qed.
 
 (* the repaired relay releases destMu: the same run unwinds *)
 Example C10_example_credit_failure :
@@ -204,7 +297,7 @@ Example C10_example_credit_failure :
   | Some s => quiescentb cfg_fixed s && trig s && negb (blocks s Cl) && negb (blocks s Sv) && c10_ok (obs_of s)
   | None => false
   end = true.
-Proof. vm_compute. reflexivity. Qed.
+Proof. exact ex_credit_failure. Qed.
 
 (* the repaired relay ends the session on both *)
 Example C10_example_data_errors_end_the_session :
@@ -213,7 +306,42 @@ Example C10_example_data_errors_end_the_session :
   | Some s1, Some s2 => quiescentb cfg_fixed s1 && trig s1 && c10_ok (obs_of s1) && quiescentb cfg_fixed s2 && trig s2 && c10_ok (obs_of s2)
   | _, _ => false
   end = true.
-Proof. vm_compute. reflexivity. Qed.
+Proof. exact ex_data_errors_end_the_session. Qed.
+
+(* hypotheses of C10_every_maximal_run_ends_released: a reachable triggered state (the channel-full
+   situation), an internal run from it that is maximal, nothing held up *)
+Example C10_example_maximal_run :
+  match run cfg_fixed init w_full_then_end with
+  | Some s =>
+      let ls := [IAbort Sv; IUnlock Sv false; ISelDone Sv; IHandshake Sv; IStop Sv; IJoin; ICallerClose; IReadEnd Sv] in
+      trig s && forallb internal ls &&
+      match run cfg_fixed s ls with
+      | Some s' => quiescentb cfg_fixed s' && negb (blocks s' Cl) && negb (blocks s' Sv)
+                   && Nat.leb (length ls) (measure s)
+                   && match c10_verdict (model_raw s') with None => true | Some _ => false end
+      | None => false
+      end
+  | None => false
+  end = true.
+Proof. exact ex_maximal_run. Qed.
+
+(* hypotheses of C10_no_spurious_return / C10_session_intact_until_triggered: an untriggered busy state *)
+Example C10_example_intact :
+  match run cfg_fixed init (w_idle ++ rep 3 w_queue1 ++ [ESend Sv KDirect; IRead Sv; ITake Sv false; IDWrite Sv false]) with
+  | Some s => negb (trig s) && negb (returned s) && Nat.eqb (goroutines s) 7
+  | None => false
+  end = true.
+Proof. exact ex_intact. Qed.
+
+(* each PROPFAIL clause is produced by some observation *)
+Example C10_example_verdicts :
+  (c10_verdict (mkRaw false (Some false) [1;1;0;0;0;0;1;1]),
+   c10_verdict (mkRaw false (Some false) [1;0;1;0;0;0;1;0]),
+   c10_verdict (mkRaw true (Some false) [0;0;0;0;0;0;0;0]),
+   c10_verdict (mkRaw true (Some true) [0;0;0;0;0;0;0;1]),
+   c10_verdict (mkRaw true None [0;0;0;0;0;0;0;0]))
+  = (Some CReturns, Some CNoBlockedGoroutine, Some CUpstreamClosed, Some CNoBlockedGoroutine, None).
+Proof. reflexivity. Qed.
 
 (* the guard of C10_returns_partial is met by the plain shutdown run *)
 Example C10_example_partial :
@@ -221,10 +349,10 @@ Example C10_example_partial :
   | Some s => quiescentb cfg_orig s && closing s && returned s
   | None => false
   end = true.
-Proof. vm_compute. reflexivity. Qed.
+Proof. exact ex_partial. Qed.
 
 (* the eager scheduler used for predictions reaches quiescence *)
 Example C10_example_predict :
   let '(fl, s, ok) := predict cfg_fixed init [[IPreface true]; [ESend Cl KDirect]; [EClose Sv]] in
   (fl, c10_ok (obs_of s), ok) = ([false; false; true], true, true).
-Proof. vm_compute. reflexivity. Qed.
+Proof. exact ex_predict. Qed.
